@@ -167,6 +167,11 @@ func gen(seed uint64, tier string) Scenario {
 			}
 		}
 	}
+	// writes that wait together may travel as one byte run (a publisher's packets of one tick then
+	// sit in the server's read buffer together); hash-derived so that no other choice moves
+	if x := core.HS(seed, "c13.coalesce", "", 0) % 100; x < 40 {
+		n.Coalesce = []float64{0.5, 1}[x%2]
+	}
 	sc.Net = n
 	// one reader may use UDP-multicast (hash-derived so that no other choice of the scenario moves)
 	if x := core.HS(seed, "c13.mcast", "", 0); x%100 < 25 {
@@ -200,6 +205,18 @@ func gen(seed uint64, tier string) Scenario {
 	if x := core.HS(seed, "c13.cbclose", "", 0); x%100 < 30 {
 		sc.CBClose = &CBClose{Kind: []string{"session", "server", "client", "conn"}[(x>>8)%4], Seq: 2 + int((x>>16)%12),
 			Spin: []int{1, 4, 32, 256}[(x>>24)%4], Swap: (x>>32)%3 != 0}
+		if sc.CBClose.Kind == "conn" {
+			// the point of closing the control connection inside a callback is what the reader does with
+			// the frames that are already in its buffer: let the close path run far, and let the
+			// publisher's packets of one tick arrive together
+			sc.CBClose.Spin = 256
+			sc.Net.Coalesce = 1
+			for i := range sc.Peers {
+				if sc.Peers[i].Role == "publish" && sc.Peers[i].Transport == "udp" {
+					sc.Peers[i].Transport = "tcp"
+				}
+			}
+		}
 	}
 	if r.Bool(0.75) {
 		sc.Yields = map[string]core.YieldSpec{}
@@ -372,6 +389,7 @@ func run(t *testing.T, sc Scenario) *core.Result {
 						}
 					}
 					if sconn != nil {
+						w.Probe("conn_close_inside_packet_callback")
 						w.Go("cbcloser", func() { sconn.Close() })
 					}
 				default:
